@@ -326,6 +326,27 @@ def handle (M : Mode R) (s : State R) (j : Json) : Except String (State R × Jso
           | some sh => Json.arr (sh.toArray.map fun n => toJson (n : Nat))
           | none => Json.null),
         ("ok", showArr A t.data)])
+  | "precheck" => do
+      -- argument checks of the operators: returns the error class the model predicts (or "ok")
+      let c ← s.get (← getStr j "id")
+      let op ← getStr j "op"
+      let showE : Option OpErr → Json := fun e => match e with
+        | none => Json.str "ok"
+        | some .structural => Json.str "structural"
+        | some .value => Json.str "value"
+        | some .notImplemented => Json.str "not_implemented"
+      let r ← match op with
+        | "integrate" => pure (c.integratePre (Scope.ofList (← getNatList j "vars")))
+        | "evidence" => pure (c.evidencePre (Scope.ofList (← getNatList j "vars")))
+        | "differentiate" => do
+            let ord ← (← j.getObjVal? "order").getInt?
+            pure (c.differentiatePre ord)
+        | "multiply" => do
+            let c2 ← s.get (← getStr j "id2")
+            pure (c.multiplyPre c2)
+        | "query" => pure c.queryPre
+        | _ => throw s!"unknown op {op}"
+      pure (s, Json.mkObj [("pre", showE r)])
   | "op_mul" => do
       -- model multiply on the denotations of two registered circuits
       let c1 ← s.get (← getStr j "id")
